@@ -21,7 +21,7 @@ Definition last_write (t : string) (os : list dop) : option (option publish) :=
 Definition holds (d : dstate) (t : string) (w : option publish) : Prop :=
   match w with
   | Some p => ∃ st, 0 < st ∧ abs_ret (d_ret d) t = Some (RMsg p st 0)
-  | None => ∃ st, 0 < st ∧ abs_ret (d_ret d) t = Some (RMsg (Publish t "" 0 false) 0 st)
+  | None => ∃ st, 0 < st ∧ abs_ret (d_ret d) t = Some (RMsg (Publish t "" 0 false false) 0 st)
   end.
 
 Lemma stamp_pos d t clk : 0 < clk → 0 < ret_stamp d t clk.
@@ -35,7 +35,7 @@ Lemma dapply_ret d o t : op_valid o →
 Proof.
   intros Hv. destruct o as [id cid mp lwt clk|id clk|p clk|sid pat qos clk|sid pat clk|p clk|sid clk|pb clk|topic clk];
     cbn [ret_write dapply]; try done.
-  - unfold sess_create. destruct (alookup id (d_sess d)) as [old|]; [destruct (sess_added old)|]; done.
+  - unfold sess_create. destruct (alookup id (d_sess d)) as [old|]; [destruct (sess_added old)|]; try done; by destruct (utf8_ok id && utf8_ok cid && utf8_ok mp).
   - unfold sess_delete. destruct (alookup id (d_sess d)) as [old|]; [destruct (is_removed _ _)|]; done.
   - destruct Hv as [_ Hclk]. cbn [ret_set fst with_ret d_ret]. unfold holds, abs_ret. cbn [d_ret with_ret].
     destruct (String.eqb_spec (p_topic pb) t) as [<-|Hne].
